@@ -25,6 +25,7 @@ structure Item where
   val : Int
   err : Option Err
   blocks : Bool := false      -- returns only once its execution is cancelled
+  sleeps : Bool := false      -- takes longer than any configured retry max duration before it returns
 deriving Repr
 
 /-- an emitted listener call with the execution statistics it observed -/
@@ -81,6 +82,8 @@ structure Run where
   cancelCause : Err := Err.canceled          -- what the scripted cancellation reports (context.Canceled / ErrExecutionCanceled)
   seenAt : Nat := 0                -- occurrences of the cancellation point's event so far
   hedgeAttempt : Bool := false     -- the execution copy the function currently runs on was made by `CopyForHedge` (`IsHedge`)
+  mdPos : List Nat := []           -- positions of the retry policies configured with a max duration (static configuration)
+  slept : Nat := 0                 -- invocations so far that outlasted the max duration: `ElapsedTime() > maxDuration` iff > 0
 deriving Repr
 
 abbrev Layer := Run → Option (PR × Run)
@@ -160,7 +163,7 @@ def base : Layer := fun r =>
   match r.script with
   | [] => some (fnResult 0 none, { r with inv := r.inv + 1, execs := r.execs + 1 })
   | it :: rest =>
-    let r := { r with script := rest, inv := r.inv + 1 }
+    let r := { r with script := rest, inv := r.inv + 1, slept := r.slept + (if it.sleeps then 1 else 0) }
     if it.blocks then
       if r.ext.isSome then some (fnResult it.val it.err, { r with execs := r.execs + 1 })   -- released by the external cancellation
       else if !r.inTimeout then none
@@ -183,12 +186,19 @@ def drainBreaker (r : Run) (id pos : Nat) : Run :=
     let r := b.events.foldl (fun r ev => { r with log := r.log ++ [⟨breakerEventName ev, pos, 0, 0, none⟩] }) r
     updBreaker r id (fun _ b => { b with events := [] })
 
+/-- `maxDuration != 0 && exec.ElapsedTime() > maxDuration` for the retry policy at `pos` -/
+def durExceeded (pos : Nat) (r : Run) : Bool := r.mdPos.contains pos && decide (r.slept > 0)
+
+@[simp] theorem durExceeded_emit (pos : Nat) (r : Run) (n : String) (p : Nat) : durExceeded pos (r.emit n p) = durExceeded pos r := rfl
+@[simp] theorem durExceeded_setFailed (pos : Nat) (r : Run) (p n : Nat) : durExceeded pos (setFailed r p n) = durExceeded pos r := rfl
+
 /-- `retrypolicy.executor.OnFailure` decision: (result, run) after a failure was classified -/
 def retryOnFailure (pos : Nat) (m : Int) (retLast : Bool) (abort : List Cond) (res1 : PR) (r : Run) : PR × Run :=
+  let dur := durExceeded pos r
   let r := r.emit "rp.onFailure" pos
   let failed := getFailed r pos + 1
   let r := setFailed r pos failed
-  let exc : Bool := decide (m ≠ -1 ∧ (failed : Int) > m)
+  let exc : Bool := decide (m ≠ -1 ∧ (failed : Int) > m) || dur
   let r := if exc then { r with exceeded := pos :: r.exceeded } else r
   let abortable := isAbortable abort res1.outcome
   let shouldRetry := !abortable && !exc && decide (m = -1 ∨ m > 0)
